@@ -7,6 +7,7 @@ import PV.Model.Stats
 import PV.Model.Tokens
 import PV.Model.Version
 import PV.Model.RegAlloc
+import PV.Model.RaInsert
 import PV.DriverRun
 /-! One-JSON-object-in / one-JSON-object-out driver over the executable models. -/
 namespace PV.Driver
@@ -101,6 +102,19 @@ def handleE (j : Json) : Except String Json := do
     | .ok st => pure (Json.mkObj [("ok", Json.mkObj [
         ("mapping", Json.arr (st.mapping.map (fun (v, r) => Json.arr #[Json.str v, Json.num (JsonNumber.fromNat r)])).toArray),
         ("used", jNats (PV.RegAlloc.usedRegisters st))])])
+  | "addra" =>
+    -- {"name":…, "push_pop": bool, "code": [[op, [inputs…], out|null], …]} -> same shape
+    let name ← j.getObjValAs? String "name"
+    let pp ← j.getObjValAs? Bool "push_pop"
+    let code ← (← (← j.getObjVal? "code").getArr?).toList.mapM (fun x => do
+      let a ← x.getArr?
+      let op ← (a[0]!).getStr?
+      let ins ← (← (a[1]!).getArr?).toList.mapM (·.getStr?)
+      let out := match (a[2]!).getStr? with | .ok o => some o | .error _ => none
+      pure ({ op := op, ins := ins, out := out } : PV.RaInsert.Ins))
+    let r := PV.RaInsert.addRa name pp code
+    pure (Json.mkObj [("ok", Json.arr (r.map (fun i => Json.arr #[Json.str i.op, Json.arr (i.ins.map Json.str).toArray,
+      match i.out with | some o => Json.str o | none => Json.null])).toArray)])
   | "check-fall" => do pure (Json.mkObj [("ok", ← PV.DriverRun.checkFallCmd j)])
   | "run-regions" => do pure (Json.mkObj [("ok", ← PV.DriverRun.runRegions j)])
   | "check-alloc" => do pure (Json.mkObj [("ok", ← PV.DriverRun.checkAlloc j)])
